@@ -744,7 +744,12 @@ Proof.
   destruct (is_struct ra || negb (okc strict' (ra, la))); [discriminate|]. injection Htc as <- <-.
   destruct (IHa E st ra la Ta Hcf Henv) as [_ Ra].
   split; [unfold ann_inv, mk; cbn; repeat split; try lia; discriminate|].
-  apply (res_ok_bind ra); [exact Ra|]. intros [m u|z] _ Va; [|exact I].
+  apply (res_ok_bind ra); [exact Ra|]. intros [m u|z] _ Va.
+  2: { cbn [eval_red]. destruct op; [exact I| |destruct (z <? 0); [exact I|]]; cbn [res_ok val_ok mk aw aex].
+       - pose proof (b2z_range (negb (z =? 0))). unfold wfn, inrange. repeat split; auto; lia.
+       - replace (Z.land (popcount_loop (Z.to_nat (Z.log2 z + 1)) z 0) 1) with ((popcount_loop (Z.to_nat (Z.log2 z + 1)) z 0) mod 2).
+         + pose proof (mod2_range (popcount_loop (Z.to_nat (Z.log2 z + 1)) z 0)). unfold wfn, inrange. repeat split; auto; lia.
+         + change 2 with (2 ^ 1). rewrite <- Z.land_ones by lia. reflexivity. }
   cbn [eval_red res_ok]. destruct op; cbn [h_reduce_and h_reduce_or h_reduce_xor fst snd val_ok mk aw aex].
   - pose proof (b2z_range (u =? Z.shiftl 1 m - 1)). unfold wfn, inrange. repeat split; auto; lia.
   - pose proof (b2z_range (negb (u =? 0))). unfold wfn, inrange. repeat split; auto; lia.
